@@ -45,7 +45,7 @@ def mandatory_bins(tier):
     b = ["len_mod16_%d" % i for i in range(16)] + ["len_mod40_%d" % i for i in range(40)]
     b += ["trailing_zeros_%d" % z for z in (0, 1, 2, 15, 16, 17)]
     b += ["zero_components", "zero_comments", "io_stream", "io_path", "mac_on", "mac_off", "default_key", "key_ends_00", "declared_lt_len", "declared_1",
-          "desc_210_bytes", "desc_211_bytes_refused", "tag_order_not_sorted", "crlf_in_path_file", "all_zero_payload", "cross_mode_path_written_stream_read", "rewrite_after_in_place_mutation", "enc_tag_other_value_on_plain_component"]
+          "desc_210_bytes", "desc_211_bytes_refused", "tag_order_not_sorted", "crlf_in_path_file", "all_zero_payload", "cross_mode_path_written_stream_read", "rewrite_after_in_place_mutation", "enc_tag_other_value_on_plain_component", "stream_positioned_after_other_content"]
     return b
 
 
@@ -144,11 +144,23 @@ def check_case(ns, ctx, case, key, scratch, modes=("stream", "path"), macs=(True
         if key == bytes(16):
             if mode == "stream":
                 readers.append((True, "stream_default_args", lambda: BF.Bf3File.read_file(io.StringIO(text))))
+        if mode == "stream" and (len(case.comps) + key[0]) % 3 == 0:
+            def after_preamble():
+                # the BF3 text is neither written nor read at stream offset 0: other content precedes it in the same stream
+                s = io.StringIO()
+                s.write("Preamble: earlier content of the same stream\n\n00FF\nfree text\n")
+                start = s.tell()
+                obj.write_file(s, key)
+                s.seek(start)
+                return BF.Bf3File.read_file(s, True, key)
+            readers.append((True, "stream_positioned_after_other_content", after_preamble))
         for cm, how, rd in readers:
             ctx.ev()
             ctx.bin("mac_on" if cm else "mac_off")
             if how == "path_written_stream_read":
                 ctx.bin("cross_mode_path_written_stream_read")
+            if how == "stream_positioned_after_other_content":
+                ctx.bin("stream_positioned_after_other_content")
             try:
                 with warnings.catch_warnings(record=True) as wl:
                     warnings.simplefilter("always")
